@@ -186,7 +186,7 @@ template <class G> std::vector<ConstOp<G>> constOps() {
             auto p = algorithms::findVertexPredecessors(g, src);
             auto q = algorithms::findAllVertexPredecessors(g, src);
             for (VertexIndex t = 0; t < g.getSize(); ++t)
-                if (p.first[t] != algorithms::BASEGRAPH_VERTEX_MAX) {
+                if (p.first[t] != (size_t)std::numeric_limits<VertexIndex>::max()) {
                     s += ser(algorithms::findPathToVertexFromPredecessors(g, src, t, p));
                     for (auto &x : algorithms::findMultiplePathsToVertexFromPredecessors(g, src, t, q)) s += ser(x);
                 }
